@@ -134,7 +134,7 @@ class TBRDiagnostics(object):
       raise ValueError('Both control and treatment group ids must be present'
                        ' in the data')
     new_group = group.map(group_map, na_action='ignore')
-    data.loc[:, self._df_names.group] = new_group
+    data[self._df_names.group] = new_group
 
     self._analysis_data = data.pivot_table(index=columns[0:2],
                                            columns=columns[2],
